@@ -75,6 +75,11 @@ func caseID(raw json.RawMessage) string {
 		if l.Src != "" {
 			return fmt.Sprintf("%q", l.Src)
 		}
+		s := string(raw)
+		if len(s) > 240 {
+			s = s[:240] + "..."
+		}
+		return s
 	}
 	return fmt.Sprint(h.ID)
 }
